@@ -10,9 +10,9 @@ res() { echo "{\"pid\":\"$PID\",\"i\":$I,\"applies\":$1,\"suite_pass\":$2,\"demo
 git apply --check "$M/m$I.diff" 2>/dev/null || { res false null null null; exit 1; }
 git apply "$M/m$I.diff"
 if cargo test --workspace --no-fail-fast --offline > "$M/m$I.suite.log" 2>&1; then SUITE=true; else SUITE=false; fi
-( cd "$M/m${I}_demo" && bash ./run.sh > "$M/m$I.demo_with.log" 2>&1 ); RC1=$?
+( cd "$M/m${I}_demo" && bash "$M/m${I}_demo/run.sh" > "$M/m$I.demo_with.log" 2>&1 ); RC1=$?
 git checkout -q -- .
-( cd "$M/m${I}_demo" && bash ./run.sh > "$M/m$I.demo_without.log" 2>&1 ); RC2=$?
+( cd "$M/m${I}_demo" && bash "$M/m${I}_demo/run.sh" > "$M/m$I.demo_without.log" 2>&1 ); RC2=$?
 [ $RC1 -ne 0 ] && W=true || W=false
 [ $RC2 -eq 0 ] && WO=true || WO=false
 res true $SUITE $W $WO
